@@ -66,9 +66,9 @@ def run_driver(ctx, driver, args=(), std='c++17', link_lib=True, extra=(), timeo
     return (rc != 0), '$ %s %s\n%s\nexit=%d' % (driver, ' '.join(map(str, args)), out[-3000:], rc)
 
 
-def fiber_lib(ctx, coro=False):
+def fiber_lib(ctx, coro=False, glibcxx_debug=False):
     """the REAL library of ctx.repo built with its own FIBER fault backend (cmake + ninja, ~15 s), cached per run"""
-    tag = 'fiberlib' + ('_coro' if coro else '')
+    tag = 'fiberlib' + ('_coro' if coro else '') + ('_dbg' if glibcxx_debug else '')
     d = os.path.join(ctx.workdir, tag)
     lib = os.path.join(d, 'src', 'libyaclib.a')
     if os.path.exists(lib):
@@ -76,6 +76,8 @@ def fiber_lib(ctx, coro=False):
     cmd = ['cmake', '-G', 'Ninja', '-S', ctx.repo, '-B', d, '-DCMAKE_BUILD_TYPE=RelWithDebInfo', '-DYACLIB_FAULT=FIBER', '-DYACLIB_TEST=OFF']
     if coro:
         cmd += ['-DYACLIB_CXX_STANDARD=20', '-DYACLIB_FLAGS=CORO']
+    if glibcxx_debug:
+        cmd += ['-DCMAKE_CXX_FLAGS=-D_GLIBCXX_DEBUG']      # checked iterators: a dereference of end() aborts
     rc, out = _sh(cmd, timeout=300)
     if rc == 0:
         rc, out2 = _sh(['cmake', '--build', d, '-j', '12'], timeout=900)
@@ -85,14 +87,14 @@ def fiber_lib(ctx, coro=False):
     return d, ''
 
 
-def run_fiber_driver(ctx, driver, args=(), coro=False, timeout=120):
-    d, log = fiber_lib(ctx, coro)
+def run_fiber_driver(ctx, driver, args=(), coro=False, timeout=120, glibcxx_debug=False):
+    d, log = fiber_lib(ctx, coro, glibcxx_debug)
     if d is None:
         return None, log
     src = os.path.join(ROOT, 'replay', driver)
-    exe = os.path.join(ctx.workdir, driver.replace('.cpp', '') + '_fiber')
+    exe = os.path.join(ctx.workdir, driver.replace('.cpp', '') + '_fiber' + ('_dbg' if glibcxx_debug else ''))
     if not os.path.exists(exe):
-        cmd = ['g++', '-std=' + ('c++20' if coro else 'c++17'), '-O1', '-g', '-I', os.path.join(ctx.repo, 'include'), '-I', os.path.join(ctx.repo, 'src'),
+        cmd = ['g++', '-std=' + ('c++20' if coro else 'c++17'), '-O1', '-g'] + (['-D_GLIBCXX_DEBUG'] if glibcxx_debug else []) + [ '-I', os.path.join(ctx.repo, 'include'), '-I', os.path.join(ctx.repo, 'src'),
                '-I', os.path.join(d, 'include'), src, os.path.join(d, 'src', 'libyaclib.a'), '-lpthread', '-o', exe]
         rc, out = _sh(cmd)
         if rc != 0:
